@@ -1,102 +1,14 @@
-import SSV.Proofs.RelayLifeDefs3
+import SSV.Proofs.RelayLifeInv3a_p0
+import SSV.Proofs.RelayLifeInv3a_p1
+import SSV.Proofs.RelayLifeInv3a_p2
+import SSV.Proofs.RelayLifeInv3a_p3
+import SSV.Proofs.RelayLifeInv3a_p4
+import SSV.Proofs.RelayLifeInv3a_p5
+import SSV.Proofs.RelayLifeInv3a_p6
+import SSV.Proofs.RelayLifeInv3a_p7
+import SSV.Proofs.RelayLifeInv3a_p8
 namespace SSV.RelayLife
 variable (cfg : Cfg)
-
-theorem inv3a_arrive (s s' : State) (c : Nat) (hI : Inv3a s) (h : step cfg s (.arrive c) = some s') : Inv3a s' := by
-  obtain ⟨k1,u2,u3,g5,gp⟩ := hI
-  simp only [step] at h
-  (repeat' split at h) <;> close_case3
-
-theorem inv3a_rLock (s s' : State)  (hI : Inv3a s) (h : step cfg s (.rLock ) = some s') : Inv3a s' := by
-  obtain ⟨k1,u2,u3,g5,gp⟩ := hI
-  simp only [step] at h
-  (repeat' split at h) <;> close_case3
-
-set_option maxHeartbeats 1600000 in
-theorem inv3a_rProc (s s' : State) (ok : Bool) (hI : Inv3a s) (h : step cfg s (.rProc ok) = some s') : Inv3a s' := by
-  obtain ⟨k1,u2,u3,g5,gp⟩ := hI
-  simp only [step] at h
-  (repeat' split at h) <;> close_case3
-
-theorem inv3a_rMore (s s' : State) (c : Nat) (hI : Inv3a s) (h : step cfg s (.rMore c) = some s') : Inv3a s' := by
-  obtain ⟨k1,u2,u3,g5,gp⟩ := hI
-  simp only [step] at h
-  (repeat' split at h) <;> close_case3
-
-theorem inv3a_rUnlock (s s' : State)  (hI : Inv3a s) (h : step cfg s (.rUnlock ) = some s') : Inv3a s' := by
-  obtain ⟨k1,u2,u3,g5,gp⟩ := hI
-  simp only [step] at h
-  (repeat' split at h) <;> close_case3
-
-theorem inv3a_rExit (s s' : State)  (hI : Inv3a s) (h : step cfg s (.rExit ) = some s') : Inv3a s' := by
-  obtain ⟨k1,u2,u3,g5,gp⟩ := hI
-  simp only [step] at h
-  (repeat' split at h) <;> close_case3
-
-set_option maxHeartbeats 1600000 in
-theorem inv3a_init (s s' : State) (i : Nat) (ok : Bool) (hI : Inv3a s) (h : step cfg s (.init i ok) = some s') : Inv3a s' := by
-  obtain ⟨k1,u2,u3,g5,gp⟩ := hI
-  simp only [step] at h
-  (repeat' split at h) <;> close_case3
-
-theorem inv3a_dTimeout (s s' : State) (i : Nat) (hI : Inv3a s) (h : step cfg s (.dTimeout i) = some s') : Inv3a s' := by
-  obtain ⟨k1,u2,u3,g5,gp⟩ := hI
-  simp only [step] at h
-  (repeat' split at h) <;> close_case3
-
-theorem inv3a_dPacket (s s' : State) (i : Nat) (hI : Inv3a s) (h : step cfg s (.dPacket i) = some s') : Inv3a s' := by
-  obtain ⟨k1,u2,u3,g5,gp⟩ := hI
-  simp only [step] at h
-  (repeat' split at h) <;> close_case3
-
-theorem inv3a_dSend (s s' : State) (i : Nat) (hI : Inv3a s) (h : step cfg s (.dSend i) = some s') : Inv3a s' := by
-  obtain ⟨k1,u2,u3,g5,gp⟩ := hI
-  simp only [step] at h
-  (repeat' split at h) <;> close_case3
-
-theorem inv3a_uFail (s s' : State) (i : Nat) (hI : Inv3a s) (h : step cfg s (.uFail i) = some s') : Inv3a s' := by
-  obtain ⟨k1,u2,u3,g5,gp⟩ := hI
-  simp only [step] at h
-  (repeat' split at h) <;> close_case3
-
-set_option maxHeartbeats 1600000 in
-theorem inv3a_cleanup (s s' : State) (i : Nat) (hI : Inv3a s) (h : step cfg s (.cleanup i) = some s') : Inv3a s' := by
-  obtain ⟨k1,u2,u3,g5,gp⟩ := hI
-  simp only [step] at h
-  (repeat' split at h) <;> close_case3
-
-theorem inv3a_uRecv (s s' : State) (i : Nat) (k : Nat) (hI : Inv3a s) (h : step cfg s (.uRecv i k) = some s') : Inv3a s' := by
-  obtain ⟨k1,u2,u3,g5,gp⟩ := hI
-  simp only [step] at h
-  (repeat' split at h) <;> close_case3
-
-set_option maxHeartbeats 1600000 in
-theorem inv3a_uStep (s s' : State) (i : Nat) (hI : Inv3a s) (h : step cfg s (.uStep i) = some s') : Inv3a s' := by
-  obtain ⟨k1,u2,u3,g5,gp⟩ := hI
-  simp only [step] at h
-  (repeat' split at h) <;> close_case3
-
-theorem inv3a_timer (s s' : State) (i : Nat) (hI : Inv3a s) (h : step cfg s (.timer i) = some s') : Inv3a s' := by
-  obtain ⟨k1,u2,u3,g5,gp⟩ := hI
-  simp only [step] at h
-  (repeat' split at h) <;> close_case3
-
-theorem inv3a_stopCall (s s' : State)  (hI : Inv3a s) (h : step cfg s (.stopCall ) = some s') : Inv3a s' := by
-  obtain ⟨k1,u2,u3,g5,gp⟩ := hI
-  simp only [step] at h
-  (repeat' split at h) <;> close_case3
-
-set_option maxHeartbeats 1600000 in
-theorem inv3a_stop (s s' : State)  (hI : Inv3a s) (h : step cfg s (.stop ) = some s') : Inv3a s' := by
-  obtain ⟨k1,u2,u3,g5,gp⟩ := hI
-  simp only [step] at h
-  (repeat' split at h) <;> close_case3
-
-set_option maxHeartbeats 1600000 in
-theorem inv3a_stopVisit (s s' : State) (i : Nat) (hI : Inv3a s) (h : step cfg s (.stopVisit i) = some s') : Inv3a s' := by
-  obtain ⟨k1,u2,u3,g5,gp⟩ := hI
-  simp only [step] at h
-  (repeat' split at h) <;> close_case3
 
 theorem inv3a_step (s s' : State) (e : Ev) (hI : Inv3a s) (h : step cfg s e = some s') : Inv3a s' := by
   cases e with
